@@ -62,6 +62,6 @@ func runStress(in Sx) Sx {
 func genStress(c *Ctx) {
 	for i := 0; i < c.N; i++ {
 		in := L(Sym("stress"), Int(2+c.Rng.Intn(6)), Int(5+c.Rng.Intn(40)), Bool(c.Rng.Intn(5) != 0), Int(i))
-		c.Emit(in, runStress(in))
+		c.Pending(in); c.Emit(in, runStress(in))
 	}
 }
